@@ -123,6 +123,7 @@ std::string first_dsplib_frame(const std::string& report) {
 
 void run_program(const Prog& p, Out& o) {
     const int T = int(p.threads.size());
+    for (int round = 0, rounds = replay_rounds(8); round < rounds && !o.failed; ++round)
     run_forked(o, 300.0, [&](Out& co) {
         SharedPlans sp;
         sp.build(p.shared);
